@@ -141,6 +141,19 @@ func (s *ltcredSys) mutate(mut string) (string, string) {
 		p = string(b)
 	case "pwEmpty":
 		p = ""
+	case "hexTs": // the same instant written as a Go integer literal, with the password such a username would have
+		u = fmt.Sprintf("0x%x", t) + rest
+		p = macPw(s.secret, u)
+	case "underscoreTs":
+		d := strconv.FormatInt(t, 10)
+		u = d[:1] + "_" + d[1:] + rest
+		p = macPw(s.secret, u)
+	case "octalTs":
+		u = fmt.Sprintf("0o%o", t) + rest
+		p = macPw(s.secret, u)
+	case "expTs":
+		u = strconv.FormatInt(t/10, 10) + "e1" + rest
+		p = macPw(s.secret, u)
 	case "userSwap":
 		u = strconv.FormatInt(t, 10) + ":mallory"
 	}
